@@ -1040,6 +1040,65 @@ func steerServeWhileServing(workers int, emit func(string)) {
 	flushNotes(e.rec, emit)
 }
 
+// steerServeAfterFailedStart: Serve returns an error before anything was started (an event listener
+// without a handler fails the validation). The service is then stopped like any service whose Serve
+// has returned: once the handler is there it can be served, and gives the usual guarantees.
+func steerServeAfterFailedStart(workers int, emit func(string)) {
+	if atomic.LoadInt32(&poolHung) != 0 {
+		return
+	}
+	e := &steerEnv{rec: &recorder{byRep: map[string]int{}, grp: map[int]string{}}, g: &gateCtl{holds: map[int]*hold{}}}
+	setHooks(e.rec.add, e.g.fn)
+	defer e.close()
+	emit("reset")
+	e.s = res.NewService("pool")
+	e.s.SetLogger(svc.NopLogger{})
+	e.s.SetWorkerCount(workers)
+	e.s.Handle("r.$id", res.Call("do", func(r res.CallRequest) { r.OK(nil) }))
+	e.s.AddListener("late.$id", func(*res.Event) {})
+	failed := make(chan error, 1)
+	go func() { failed <- e.s.Serve(recconn.New()) }()
+	select {
+	case err := <-failed:
+		if err == nil {
+			return // the validation did not fail: nothing to learn here
+		}
+	case <-time.After(3 * time.Second):
+		e.rec.add("h.serve.hung", "", 0)
+		atomic.StoreInt32(&poolHung, 1)
+		flushNotes(e.rec, emit)
+		return
+	}
+	e.s.Handle("late.$id", res.Call("do", func(r res.CallRequest) { r.OK(nil) }))
+	e.conn = recconn.New()
+	served := make(chan struct{})
+	e.s.SetOnServe(func(*res.Service) { close(served) })
+	e.done = make(chan error, 1)
+	go func() { e.done <- e.s.Serve(e.conn) }()
+	select {
+	case <-served:
+	case err := <-e.done:
+		_ = err
+		e.rec.add("h.serve.refused.stopped", "", 0)
+		flushNotes(e.rec, emit)
+		return
+	case <-time.After(3 * time.Second):
+		e.rec.add("h.serve.hung", "", 0)
+		atomic.StoreInt32(&poolHung, 1)
+		flushNotes(e.rec, emit)
+		return
+	}
+	ran := make(chan struct{})
+	e.submit("after", "", func(int) { close(ran) })
+	select {
+	case <-ran:
+	case <-time.After(2 * time.Second):
+		e.rec.add("h.refused.running", "", 0)
+	}
+	e.shutdown()
+	flushNotes(e.rec, emit)
+}
+
 func steerAll(emit func(string)) {
 	for _, w := range []int{1, 2, 3} {
 		steerLateSubmit(w, "slow", emit)
@@ -1059,5 +1118,6 @@ func steerAll(emit func(string)) {
 		steerShutdownDuringSubscribe(w, emit)
 		steerStaleSubmitAcrossRestart(w, emit)
 		steerServeWhileServing(w, emit)
+		steerServeAfterFailedStart(w, emit)
 	}
 }
